@@ -614,6 +614,11 @@ def run_e(prop, tier, n_st=350, n_pool=350, dfs_budget=500, long_runs=30):
     elif mism:
         for f in failures[:3]:
             f['model_says'] = 'trace validation also failed on %d runs' % len(mism)
+    be_runs = 0
+    if prop in ('C04', 'C06'):
+        be_fails, be_runs = backend_checks(ld, r, tier, prop)
+        for msg in be_fails[:5]:
+            failures.append(dict(kind='schedule', summary=msg, config=dict(kind='backend'), got_from_impl=msg))
     cfgs = set(_cfg_key(x) for x in runs)
     logs = set(_log_key(x) for x in runs)
     cov = dict(programs=len(runs), evaluations=len(runs), distinct_nontrivial=len([1 for l in logs if len(l) >= 8]), distinct=len(logs),
@@ -627,6 +632,7 @@ def run_e(prop, tier, n_st=350, n_pool=350, dfs_budget=500, long_runs=30):
                buffer_histogram=dict(collections.Counter(x['B'] for x in runs)),
                steps_histogram=dict(collections.Counter(min(200, len(x['log']) // 10 * 10) for x in runs)),
                traces_validated_against_impl=len(runs), disagreements_checked=len(mism), direct_predicate_failures_all_props=direct_all,
+               uninstrumented_backend_runs=be_runs,
                samples=[dict(kind=x['kind'], spec=x['spec'], B=x['B'], script=x['script'], outcome=x['outcome'],
                              log=[(t, e, 'S' if is_sentinel(p) else p) for t, e, p in x['log'][:30]]) for x in runs[:2] + runs[n_st:n_st + 1]],
                exhaustive=False)
@@ -663,3 +669,61 @@ def replay_e(payload, prop):
     print('  direct predicate failures:', fs)
     print('  model accepts trace:', ok, res[:300])
     return bool([f for f in fs if f[0] == prop]) or not ok
+
+
+# ------------------------------------------------------------------ real executors / process backends (functional comparison only)
+def _plus1(x):
+    return x + 1
+
+
+def _boom_at3(x):
+    if x == 3:
+        raise FnFail(Tag(3))
+    return x + 1
+
+
+def backend_checks(ld, r, tier, prop):
+    """un-instrumented runs of every backend: delivered examples / order / length / error position equal the
+    sequential pipeline (no schedule control: the OS decides)"""
+    import warnings
+    fails, runs = [], 0
+    backends = ['t', 'concurrent_mp'] if tier == 'quick' else ['t', 'mp', 'dill_mp', 'multiprocessing', 'concurrent_mp']
+    lengths = [0, 1, 5] if tier == 'quick' else [0, 1, 2, 7, 23, 40]
+    with warnings.catch_warnings():
+        warnings.simplefilter('ignore')
+        for be in backends:
+            for n in lengths:
+                for w, b in ([(2, 2)] if tier == 'quick' else [(1, 1), (2, 2), (2, 4), (3, 3), (3, 4)]):
+                    if be == 't' and w == 1:
+                        pass
+                    src = ld.new({f'k{i:02d}': i for i in range(n)})
+                    seq = [x + 1 for x in range(n)]
+                    runs += 2
+                    try:
+                        got = list(src.map(_plus1).prefetch(w, b, backend=be))
+                        ln = len(src.map(_plus1).prefetch(w, b, backend=be))
+                        got2 = list(src.map(_plus1, num_workers=w, buffer_size=b, backend=be))
+                        if prop == 'C04' and (got != seq or got2 != seq or ln != n):
+                            fails.append(f'backend {be} w={w} b={b} n={n}: prefetch {got} / parallel map {got2} / len {ln}, sequential {seq}')
+                        if prop == 'C04' and be == 't':
+                            gk = list(src.map(_plus1).prefetch(w, b, backend=be).items()) if w == 1 else None
+                            if gk is not None and gk != [(f'k{i:02d}', i + 1) for i in range(n)]:
+                                fails.append(f'backend t w=1: items() behind prefetch gave {gk}')
+                    except Exception as e:
+                        fails.append(f'backend {be} w={w} b={b} n={n}: raised {type(e).__name__}: {e}')
+                    if prop == 'C06' and n > 3:
+                        for variant in ('prefetch', 'parmap'):
+                            got, err = [], None
+                            try:
+                                it = src.map(_boom_at3).prefetch(w, b, backend=be) if variant == 'prefetch' else \
+                                    src.map(_boom_at3, num_workers=w, buffer_size=b, backend=be)
+                                for x in it:
+                                    got.append(x)
+                            except FnFail as e:
+                                err = e.args[0].t if e.args and isinstance(e.args[0], Tag) else 'untagged'
+                            except Exception as e:
+                                err = type(e).__name__
+                            runs += 1
+                            if got != [1, 2, 3] or err != 3:
+                                fails.append(f'backend {be} {variant} w={w} b={b}: function fails at position 3: consumer got {got} then {err!r}')
+    return fails, runs
